@@ -1048,6 +1048,18 @@ class Scheduler:
         self._jobs.clear()
         self._finalized_jobs.clear()
 
+        # Drop what a previous execution that stopped early (e.g. failed while other jobs were
+        # still running) left behind: events of its jobs, jobs waiting for resource limits and
+        # the resource units its jobs still held. They must not leak into the next execution.
+        while True:
+            try:
+                self.events_queue.get_nowait()
+            except queue.Empty:
+                break
+        self._jobs_pending_limits.clear()
+        for limit_name in self.limits_used:
+            self.limits_used[limit_name] = 0
+
     def add_executor(self, executor: Executor) -> None:
         """
         Add executor to scheduler.
